@@ -358,6 +358,26 @@ class C12(Check):
                         ['zone', zone]])
         if rng.random() < 0.75:
             ops.insert(0, ['set', interesting_instant(rng)])
+        if rng.random() < 0.12:
+            # the OVERRIDE itself shows the same wall-clock reading twice
+            # (fold 0, then fold 1 or the other way round): two aware
+            # datetimes that compare equal and hash alike but are an hour
+            # apart - nothing remembered for the first may answer for the
+            # second (C12-r9-2)
+            zone, u1, u2 = fold_pair(rng)
+            if rng.random() < 0.5:
+                u1, u2 = u2, u1
+            q = rng.choice(('older', 'newer', 'soon'))
+            sec = rng.choice((0, 1, 60, 1800, 3599, 3600, 3601, -1800,
+                              gen_seconds(rng)))
+            dl = ['boundary', rng.choice((0, 1, -1, 1800 * 10 ** 6,
+                                          -1800 * 10 ** 6))]
+            pres = gen_pres(rng, q != 'soon')
+            for u in (u1, u2):
+                ops.append(['set', u, ['zone', zone]])
+                ops.append([q, list(dl), sec, pres])
+                if rng.random() < 0.5:
+                    ops.append([rng.choice(('utcnow', 'ts', 'ts_us'))])
         crng = st('clock')
         pat = crng.choice(('tick', 'jump', 'back', 'stall', 'mixed'))
         steps = {'tick': [1, 1000, 10 ** 6], 'jump': [10 ** 12, 1],
